@@ -10,7 +10,7 @@ RULE = (
     "(so that requests land inside the engine's own clean-up), x {pause, deferred pause, abort, stop, halt, suspend} at every loop "
     "position and device faults (raise / failed status) at every ledger operation, x every post-pause decision. LEDGER-CLEAN at "
     "every return to idle, over the device operations since the previous idle point: every successful stage() is followed by an "
-    "unstage() of that device; a stop() follows the last set() of every moved device; a collect() follows the last kickoff() of "
+    "unstage() of that device and a device is not unstaged more often than it was staged (also for devices whose stage()/unstage() return a Status); a stop() follows the last set() of every moved device; a collect() follows the last kickoff() of "
     "every flyer; no callback is left subscribed on any signal; per-call and in-plan subscriptions receive nothing from the next "
     "call; non-trivial = behaviour digest differs from the reference run"
 )
@@ -22,7 +22,8 @@ F = ("raise", "fail")
 _q = ["scan2", "cleanup", "bare", "fly1", "monitor1", "subs", "twomotors", "flyonly", "monitor2"]
 SPECS = {
     "quick": [spec(k, bound=1, faults=F) for k in _q] + [spec(k, bound=1, a=1) for k in ("scan2", "bare", "twomotors")] + [spec("bare2", bound=1, faults=F)]
-    + [spec("bare", [("pause",), ("abort",), ("suspend", "none")], bound=2)],  # pairs of requests on the engine-closed scenario
+    + [spec("bare", [("pause",), ("abort",), ("suspend", "none")], bound=2)]  # pairs of requests on the engine-closed scenario
+    + [spec(k, bound=1, faults=F, ss=1) for k in ("scan2", "cleanup", "bare2")],  # devices whose stage()/unstage() return a Status (ophyd-async flavour)
     "thorough": [spec(k, bound=1, faults=F, a=a) for k in _q + ["count2", "grid22s", "relscan2", "nested"] for a in (0, 1)]
     + [spec(k, bound=2, faults=F) for k in ("bare", "flyonly")]
     + [spec("twomotors", [("pause",), ("abort",), ("suspend", "none")], bound=2)],
@@ -55,6 +56,10 @@ def oracle(scn, obs, ref, schedule):
                     bal += 1
                 elif op == "unstage":
                     bal = max(0, bal - 1)
+            n_st = sum(1 for i, op in mine if op == "stage" and i not in faulted)
+            n_un = sum(1 for i, op in mine if op == "unstage" and i not in faulted)
+            if n_un > n_st and n_st:
+                out.append(("unstaged-more-often-than-staged", f"{dev}: {n_st} successful stage(), {n_un} successful unstage() when {c['name']}() left the engine idle"))
             if bal:
                 out.append(("left-staged", f"{dev}: {bal} stage() without a later unstage() when {c['name']}() left the engine idle"))
             # motion: a stop after the last set
